@@ -16,11 +16,11 @@ from ..framework import Exploration, Violation
 from . import c09_typed as typed
 
 ASSUMPTIONS = ["each structured program is rendered as Python source twice and exec'd in the worker: with the library's constructs "
-               "(_if/_elif/_else/_endif, _range/_endfor, _while/_breakif/_endwhile, if_then_else with callables) on secret values — "
-               "`while _while(c, ctx=_) and k < M:` on one line, ctx passed explicitly — and with native control flow on plain ints; the Lean "
+               "(_if/_elif/_else/_endif, _range/_endfor, _while/_breakif/_endwhile, if_then_else with values and with callables) on secret values — "
+               "`while _while(c, ctx=_) and k < M:` on one line, ctx passed explicitly — and with native control flow on plain values; the Lean "
                "model interprets the same program (sent as prefix-notation text) and decides statically which `_while` call opens a loop "
                "(the library uses the caller's line number)",
-               "conditions are comparisons of secret integers (LinCombBool, the documented condition type); a raw LinComb 0/1 passed as a "
+               "conditions are LinCombBool-valued expressions (comparisons, ~ & | of booleans, tracked boolean variables); a raw LinComb 0/1 passed as a "
                "block condition is rejected by the library at merge time (RuntimeError, checked by a fixed probe on every run) and is outside the property",
                "for-loop bounds are drawn in 0..max (the domain of _range(bound, max=...)); a 5 % stream takes a bound out of its cap and is compared "
                "model-vs-code only, except negative bounds, which are the known finding C09-negative-bound",
@@ -28,22 +28,36 @@ ASSUMPTIONS = ["each structured program is rendered as Python source twice and e
                "the library reports these as RuntimeError by design",
                "comparison operands must fit the bit length (16 here): a run in which the library's own range check raises ValueError is counted "
                "as out-of-domain, not as a deviation",
-               "the typed stream (tracked variables of boolean / fixed-point / list kind, value-level if_then_else on mixed kinds, in-place element "
-               "updates, references to list objects) is checked by the direct oracle only: the Lean statement language has integer-valued tracked "
-               "variables; in-place updates of a list that is aliased or referenced are not generated except in the fixed program of the known finding "
-               "C09-list-inplace-through-reference"]
-PARTIAL = [{"theorem": "C09_refines", "excludes": "nothing: for every program of the statement language, every nesting and all values, when the traced run "
-            "completes (the library's own range/usage checks are what makes a run fail) the native run does not fail and, unless it reaches a for loop whose "
-            "bound is outside 0..max, ends with the same variables and values"},
-           {"theorem": "C09_untouched", "excludes": "nothing"},
-           {"theorem": "C09_sat", "excludes": "nothing (any prime modulus, any bit length, run started without a guard)"},
-           {"theorem": "C09_oblivious", "excludes": "nothing (two completed runs from states of the same shape)"},
-           {"theorem": "C09_cex_negative_bound", "excludes": "closed counterexample: a negative secret bound runs max rounds where range(bound) runs none"}]
+               "lists have value semantics in the model (element assignment replaces the element of the tracked variable); the generator never updates in "
+               "place a list object that is reachable under two names (aliased variables, references taken before a block) except in the fixed program of the "
+               "known finding C09-list-inplace-through-reference; `ref` statements and the `range` objects bound to a name (bound = an input) have no "
+               "counterpart in the model line",
+               "the typed generator does not use a tracked boolean as a boolean after a block has been left (the merge demotes it to a plain LinComb: "
+               "C09_cex_boolean_demoted; a fixed probe records what the library does with it), compares integers with integers only, and keeps list lengths fixed "
+               "(if_then_else zips lists: a length change is silently truncated; the model stops with UNMODELLED there)"]
+PARTIAL = [{"theorem": "C09_refines", "excludes": "nothing inside the statement language (tracked variables of integer, boolean, fixed-point and nested-list kind, mixed-kind "
+            "merges, element assignment, value-level and thunked selection, if/elif/else, for, while, any nesting, all values): when the traced run completes "
+            "(the library's own range/usage checks, and the model's UNMODELLED stops for operand kinds on which the library itself deviates from Python — "
+            "LinComb < LinCombFxp, fixed point times fixed point — and for merges of lists of different lengths, are what makes a run fail) and the initial "
+            "fixed-point values are multiples of 2^-resolution, the native run does not fail and, unless it reaches a for loop whose bound is outside 0..max, "
+            "ends with the same variables standing for the same numbers"},
+           {"theorem": "C09_refines_int", "excludes": "corollary for integer variables and inputs"},
+           {"theorem": "C09_guard_restored", "excludes": "nothing: every completed run / statement, whatever the guard and the conditions are"},
+           {"theorem": "C09_untouched", "excludes": "object identity is claimed for secret integers and lists of them only: a boolean or fixed-point variable is re-created by the "
+            "snapshot (copy.deepcopy) and comes out of the merge as a new object — C09_untouched_value states what is kept for those (the number; booleans stay 0/1), "
+            "under a true guard"},
+           {"theorem": "C09_sat", "excludes": "nothing (any prime modulus, any bit length and resolution, run started without a guard)"},
+           {"theorem": "C09_oblivious", "excludes": "nothing (two completed runs from states of the same shape, initial values of the same shape)"},
+           {"theorem": "C09_cex_negative_bound", "excludes": "closed counterexample: a negative secret bound runs max rounds where range(bound) runs none"},
+           {"theorem": "C09_cex_boolean_demoted", "excludes": "closed example: an untouched tracked LinCombBool leaves a block as a plain LinComb (one more constraint per merge); "
+            "using it as a block condition afterwards is rejected"}]
 TRUSTED_EXTRA = ["harness/worker_block.py renders the structured program as Python source for the real run; Driver/ProtoBlock.lean parses the same "
                  "program for the model (parser not verified; a parse difference shows up as a correspondence disagreement)",
-                 "object identity (`truev is falsev` in if_then_else) is modelled by identity stamps on tracked objects; the model stops with UNMODELLED "
-                 "if two objects with one stamp ever differ (never observed; counted in unmodelled_cases)",
-                 "tracked variables of boolean, fixed-point and list kind are outside the Lean model (oracle only)"]
+                 "object identity (`truev is falsev` in if_then_else) is modelled by identity stamps on scalars (deep copies of LinCombBool/LinCombFxp: a stamp "
+                 "that equals nothing); identity of LIST objects is not modelled (value semantics); the model stops with UNMODELLED if two objects with one stamp "
+                 "ever differ (never observed; counted in unmodelled_cases)",
+                 "Spec/Native.lean identifies Python ints, bools and the floats that stand for fixed-point values with exact numbers (multiples of 2^-resolution); "
+                 "it is compared with the native Python run on every generated program"]
 
 CMPS = ["lt", "le", "eq", "ne", "gt", "ge"]
 
@@ -104,6 +118,7 @@ class G:
     def __init__(self, rnd, ninp, nextvar, maxdepth):
         self.rnd = rnd; self.ninp = ninp; self.nextvar = nextvar; self.maxdepth = maxdepth
         self.budget = rnd.randrange(3, 10)
+        self.ranges = []          # `_range` objects bound to a name: (name, input index, max), used by several loops
 
     def fresh(self):
         v = f"x{self.nextvar}"; self.nextvar += 1
@@ -142,8 +157,17 @@ class G:
             elif c < 0.86:
                 lv = f"i{depth}"
                 mx = rnd.randrange(1, 5)
-                out.append(["for", lv, ["in", rnd.randrange(self.ninp)], mx,
-                            self.block(vars_, depth + 1, loopvars + (lv,), allow_new=False)])
+                k = rnd.randrange(self.ninp)
+                shared = None
+                if rnd.random() < 0.4:
+                    # one `_range(...)` object bound to a name and iterated by several loops, nested and in sequence
+                    # (Python's `range` supports both); the bound is an input, so evaluating it once changes nothing
+                    if self.ranges and rnd.random() < 0.7:
+                        shared, k, mx = rnd.choice(self.ranges)
+                    else:
+                        shared = f"r{len(self.ranges)}"; self.ranges.append((shared, k, mx))
+                st = ["for", lv, ["in", k], mx, self.block(vars_, depth + 1, loopvars + (lv,), allow_new=False)]
+                out.append(st + [shared] if shared else st)
             elif c < 0.95:
                 out.append(["while", gen_cond(rnd, vars_, self.ninp, loopvars), rnd.randrange(0, 4),
                             self.block(vars_, depth + 1, loopvars, allow_new=False),
@@ -237,6 +261,7 @@ def gen_prog(rnd, stream="valid"):
             "inputs": [rnd.randrange(-2, 6) for _ in range(ninp)]}
     g = G(rnd, ninp, nv, rnd.choice([2, 3, 3]))
     prog["body"] = g.block(vars_, 0)
+    prog["body"] = [["range", nm, ["in", k], mx] for nm, k, mx in g.ranges] + prog["body"]
     prog["stream"] = stream
     if not fix_for_bounds(prog, rnd, outside=(stream == "uncapped")) and stream == "uncapped":
         prog["stream"] = "valid"           # no for loop: nothing to take out of its cap
@@ -264,6 +289,12 @@ TEMPLATES = [
     {"init": {"x0": 0}, "inputs": [5],
      "body": [["while", ["lt", ["var", "x0"], ["in", 0]], 3, [["assign", "x0", ["add", ["var", "x0"], ["const", 2]]]], ["eq", ["var", "x0"], ["const", 4]]],
               ["assign", "x0", ["var", "x0"]]]},
+    # one `_range` object iterated by two nested loops and again by a later loop
+    {"init": {"x0": 0, "x1": 0}, "inputs": [2],
+     "body": [["range", "r0", ["in", 0], 3],
+              ["for", "i0", ["in", 0], 3, [["for", "i1", ["in", 0], 3, [["assign", "x0", ["add", ["var", "x0"], ["const", 1]]]], "r0"],
+                                           ["assign", "x1", ["add", ["var", "x1"], ["loopvar", "i0"]]]], "r0"],
+              ["for", "i0", ["in", 0], 3, [["assign", "x1", ["add", ["var", "x1"], ["const", 1]]]], "r0"]]},
     # aliasing: `_.x1 = _.x0` outside and again inside a block (the `truev is falsev` shortcut of if_then_else)
     {"init": {"x0": 3, "x1": 1}, "inputs": [1],
      "body": [["assign", "x1", ["var", "x0"]], ["if", [[["eq", ["in", 0], ["const", 1]], [["assign", "x1", ["var", "x0"]], ["assign", "x0", ["mul", ["var", "x0"], ["const", 1]]]]]], None]]},
@@ -296,23 +327,46 @@ def expr_tok(e):
     t = e[0]
     if t == "var": return f"v{vnum(e[1])}"
     if t == "in": return f"i{e[1]}"
+    if t == "fin": return f"f{e[1]}"
     if t == "const": return f"c{e[1]}"
     if t == "loopvar": return f"l{vnum(e[1])}"
-    return {"add": "+", "sub": "-", "mul": "*"}[t] + " " + expr_tok(e[1]) + " " + expr_tok(e[2])
+    if t in ("add", "sub", "mul"):
+        return {"add": "+", "sub": "-", "mul": "*"}[t] + " " + expr_tok(e[1]) + " " + expr_tok(e[2])
+    if t in CMPS:
+        return f"{t} {expr_tok(e[1])} {expr_tok(e[2])}"
+    if t == "not": return "not " + expr_tok(e[1])
+    if t in ("and", "or"): return f"{t} {expr_tok(e[1])} {expr_tok(e[2])}"
+    if t == "list": return "[ " + " ".join(expr_tok(x) for x in e[1]) + (" " if e[1] else "") + "]"
+    if t == "item": return f"@ v{vnum(e[1])} {e[2]}"
+    if t == "item2": return f"@ @ v{vnum(e[1])} {e[2]} {e[3]}"
+    if t == "copy": return expr_tok(e[1])          # native twin only
+    raise ValueError(t)
 
 
 def cond_tok(c):
-    return f"{c[0]} {expr_tok(c[1])} {expr_tok(c[2])}"
+    return expr_tok(c)
 
 
 def block_tok(stmts):
-    return "{ " + " ".join(stmt_tok(s) for s in stmts) + (" " if stmts else "") + "}"
+    toks = [stmt_tok(s) for s in stmts]
+    toks = [t for t in toks if t]
+    return "{ " + " ".join(toks) + (" " if toks else "") + "}"
 
 
 def stmt_tok(s):
     t = s[0]
     if t == "assign":
         return f"A v{vnum(s[1])} {expr_tok(s[2])}"
+    if t == "setitem":
+        return f"P v{vnum(s[1])} {s[2]} {expr_tok(s[3])}"
+    if t == "setitem2":
+        return f"P v{vnum(s[1])} {s[2]},{s[3]} {expr_tok(s[4])}"
+    if t == "sel":
+        return f"Q v{vnum(s[1])} {cond_tok(s[2])} {expr_tok(s[3])} {expr_tok(s[4])}"
+    if t == "range":
+        return ""          # `r = _range(inp[k], max=M)`: the loops over `r` carry bound and maximum themselves (the bound is an input)
+    if t == "ref":
+        return ""          # a second name for a list object: no effect on the library's state; the model has value semantics
     if t == "ite":
         return f"T v{vnum(s[1])} {cond_tok(s[2])} {expr_tok(s[3])} {expr_tok(s[4])}"
     if t == "if":
@@ -329,9 +383,22 @@ def stmt_tok(s):
     raise ValueError(t)
 
 
+def init_tok(kind, v):
+    if isinstance(v, list):
+        return "[ " + " ".join(init_tok("int", x) for x in v) + " ]"
+    return {"int": f"i{v}", "bool": f"b{v}", "fxp": f"x{v}/2"}[kind]          # fixed point: the float v / 4
+
+
 def model_line(cid, prog, bl=16):
-    init = ",".join(f"{vnum(k)}:{v}" for k, v in prog["init"].items())
-    return f"BL|{cid}|p={common.BN128},bl={bl}|{init}|{','.join(map(str, prog['inputs']))}|{block_tok(prog['body'])}"
+    kinds = prog.get("kinds", {})
+    init = " ".join(f"{vnum(k)} {init_tok(kinds.get(k, 'int'), v)}" for k, v in prog["init"].items())
+    fin = ",".join(f"{m}/2" for m in prog.get("finputs", []))
+    return f"BL|{cid}|p={common.BN128},bl={bl}|{init}|{','.join(map(str, prog['inputs']))}|{fin}|{block_tok(prog['body'])}"
+
+
+def num_str(x):
+    """the worker's exact value of a variable (a Fraction as text, lists element-wise) as Driver/ProtoBlock.lean prints it"""
+    return "[" + ",".join(num_str(y) for y in x) + "]" if isinstance(x, list) else x
 
 
 def parse_model(out):
@@ -384,6 +451,13 @@ def diff_model(api, m):
 NEG_BOUND = {"init": {"x0": 3}, "secret_vars": ["x0"], "inputs": [-1], "stream": "uncapped", "feature": "negative-for-bound",
              "body": [["for", "i0", ["in", 0], 2, [["assign", "x0", ["add", ["var", "x0"], ["const", 1]]]]]]}
 
+# a tracked boolean used as a block condition after it has lived through a block: the merge at the block exit has turned it into a
+# plain LinComb (C09_cex_boolean_demoted); what the library does with it then is recorded in the distribution (not a generated scenario)
+BOOL_PROBE = {"typed": True, "stream": "typed", "kinds": {"x0": "bool", "x1": "int"}, "init": {"x0": 1, "x1": 5}, "secret_vars": ["x0", "x1"],
+              "inputs": [0], "finputs": [],
+              "body": [["if", [[["eq", ["in", 0], ["const", 1]], [["assign", "x1", ["add", ["var", "x1"], ["const", 1]]]]]], None],
+                       ["if", [[["var", "x0"], [["assign", "x1", ["add", ["var", "x1"], ["const", 1]]]]]], None]]}
+
 RAW_PROBE = {"init": {"x0": 3}, "secret_vars": ["x0"], "inputs": [1], "rawcond": True,
              "body": [["if", [[["eq", ["in", 0], ["const", 1]], [["assign", "x0", ["add", ["var", "x0"], ["const", 1]]]]]], None]]}
 
@@ -391,10 +465,15 @@ RAW_PROBE = {"init": {"x0": 3}, "secret_vars": ["x0"], "inputs": [1], "rawcond":
 # ------------------------------------------------------------------ exploration
 def explore(ctx, extended=False, focus=None):
     ex = Exploration()
-    ex.rule = ("random structured programs over 1-3 tracked variables and 1-3 secret inputs: assignments (incl. bare-name aliasing and secret*secret), "
+    ex.rule = ("two streams, both sent to the real code, to its native twin and to the Lean model: (typed, 30 %) 3-5 tracked variables of integer / boolean / "
+               "fixed-point / list / list-of-lists kind, assignments that change the kind inside arms, element assignment with one and two indices inside "
+               "taken and not-taken arms and loop rounds, rows replaced, value-level if_then_else on mixed kinds and on (nested) lists, boolean conditions "
+               "from variables and ~ & |, references to list objects; (integer) "
+               "random structured programs over 1-3 tracked variables and 1-3 secret inputs: assignments (incl. bare-name aliasing and secret*secret), "
                "if/elif/else chains (1-4 arms), variables first bound inside every arm of an if/elif/else (nested), for loops with a secret bound capped "
                "by a public maximum, while loops (cap 0-3) with optional break conditions, lazily evaluated selections, secret-vs-secret and "
-               "reflected comparisons, nested to depth 3, plus fixed nesting templates (while-in-for, for-in-if, elif chain, aliasing); 8 % malformed "
+               "reflected comparisons, `_range` objects bound to a name and iterated by nested and sequential loops, nested to depth 3, plus fixed nesting "
+               "templates (while-in-for, for-in-if, elif chain, aliasing, shared range); 8 % malformed "
                "and 5 % out-of-cap programs compared model-vs-code only; each valid program executed with the library's constructs and with native "
                "control flow, twice with different inputs to compare the number of constraints, and by the Lean model (values, constraints, "
                "witness); distinct = distinct program texts; non-trivial = has a block")
@@ -423,7 +502,7 @@ def explore(ctx, extended=False, focus=None):
     lines2 = [f"B|t{i}|16|{json.dumps(p)}" for i, p in enumerate(twins)]
     outs = common.run_workers(lines, script="worker_block.py")
     outs2 = common.run_workers(lines2, script="worker_block.py")
-    modelled = [i for i, p in enumerate(progs_) if not p.get("typed")]
+    modelled = list(range(len(progs_)))
     okb, outb, _ = common.lake_build(["PysnarkModel.Driver.ProtoBlock"])      # the driver module of this property (no-op when up to date)
     if not okb:
         # the model (or its driver) no longer builds: the tie is broken; the direct oracle still runs
@@ -434,6 +513,31 @@ def explore(ctx, extended=False, focus=None):
     # the documented condition type: a raw LinComb condition must be rejected (RuntimeError at merge time)
     probe = json.loads(common.run_workers([f"B|probe|16|{json.dumps(RAW_PROBE)}"], script="worker_block.py")[0].split("|", 1)[1])
     ex.count(f"raw-lincomb-condition:{probe.get('api', {}).get('status')}")
+    bprobe = json.loads(common.run_workers([f"B|bprobe|16|{json.dumps(BOOL_PROBE)}"], script="worker_block.py")[0].split("|", 1)[1])
+    bmodel = parse_model(common.lean_driver([model_line("bprobe", BOOL_PROBE)])[0]) if okb else {"status": "skipped"}
+    ex.count(f"boolean-condition-after-block:impl={bprobe.get('api', {}).get('status')}:native={bprobe.get('native', {}).get('status')}:model={bmodel['status']}")
+    if bprobe.get("api", {}).get("status") not in ("ok", None) and bprobe.get("native", {}).get("status") == "ok":
+        # a genuine deviation of the real code, reproduced on every run by this fixed probe (listed: C09-boolean-demoted)
+        ex.violations.append(Violation({"dev": "raises", "error": str(bprobe["api"]["status"]), "feature": "boolean-condition-after-block"},
+                                       f"a tracked boolean used as a block condition after an earlier block raises {bprobe['api']['status']} where native "
+                                       f"control flow completes (the merge at block exit turns every tracked LinCombBool into a plain LinComb)",
+                                       {"program": BOOL_PROBE}))
+    # a block that rebinds a tracked list to a list of another length: the element-wise merge zips to the shorter one
+    LEN_PROBE = "LEN"
+    lp = common.run_workers([f"B|lenprobe|16|{json.dumps(LEN_PROBE)}"], script="worker_block.py")[0].split("|", 1)[1]
+    try:
+        lpd = json.loads(lp)
+    except Exception:
+        lpd = {}
+    if lpd.get("taken") is not None:
+        ex.count(f"list-length-change:taken={lpd.get('taken')}")
+        if lpd.get("taken") != [7, 8, 9]:
+            ex.violations.append(Violation({"dev": "wrong-value", "feature": "list-length-change"},
+                                           f"`if c: l = [7, 8, 9]` on a tracked list of two elements ends with {lpd.get('taken')} for c = 1 (native [7, 8, 9]): "
+                                           f"the merge zips the two lists and silently truncates", {"probe": "LEN", "observed": lpd}))
+    if bprobe.get("api", {}).get("status") == "ok":
+        ex.notes.append("a tracked boolean is now usable as a block condition after a block (the merge no longer demotes it): C09_cex_boolean_demoted and the "
+                        "generator's avoidance rule can go")
     if probe.get("api", {}).get("status") != "RuntimeError":
         ex.notes.append(f"a raw LinComb block condition is no longer rejected: {probe.get('api')}")
     for i, (p, o) in enumerate(zip(progs_, outs)):
@@ -443,7 +547,7 @@ def explore(ctx, extended=False, focus=None):
         mo = mouts.get(i)
         if "harness-error" in d or any("harness-error" in x for x in d2s):
             raise common.Infra(str(d)[:600] + str([x for x in d2s if "harness-error" in x])[:600])
-        kinds = [k for k in ("if", "for", "while", "ite", "sel", "setitem", "ref") if uses(p, f'["{k}"')]
+        kinds = [k for k in ("if", "for", "while", "ite", "sel", "setitem", "setitem2", "ref", "range") if uses(p, f'["{k}"')]
         for k in kinds: ex.count(f"construct:{k}")
         ex.count(f"stream:{p['stream']}" + (f":{p.get('malformed')}" if p["stream"] == "malformed" else ""))
         if kinds:
@@ -472,7 +576,7 @@ def explore(ctx, extended=False, focus=None):
                 ex.traces_validated += 1
             # Spec/Native.lean against the native Python run
             if nat["status"] == "ok" and m.get("NAT") not in (None, "uncapped"):
-                want = ";".join(f"{vnum(k)}={v}" for k, v in sorted(nat["vars"].items(), key=lambda kv: vnum(kv[0])))
+                want = ";".join(f"{vnum(k)}={num_str(v)}" for k, v in sorted(nat["num"].items(), key=lambda kv: vnum(kv[0])))
                 if m["NAT"] != want:
                     ex.disagreements.append({"case": model_line(f"b{i}", p), "diff": [("N", f"Spec/Native={m['NAT'][:120]} python={want[:120]}")]})
             if m.get("NAT") == "uncapped":
@@ -559,8 +663,5 @@ def replay(ctx, payload):
         return 0
     line = f"B|r|16|{json.dumps(prog)}"
     print("impl :", common.run_workers([line], script="worker_block.py")[0][:3000])
-    if prog.get("typed"):
-        print("model: (typed program: outside the Lean statement language, direct oracle only)")
-    else:
-        print("model:", common.lean_driver([model_line("r", prog)])[0][:3000])
+    print("model:", common.lean_driver([model_line("r", prog)])[0][:3000])
     return 0
